@@ -1,3 +1,4 @@
+#![cfg_attr(feature = "unstable", feature(exact_size_is_empty))]
 //! Verification harness for rust-circular-buffer (see /verif/DESIGN.md).
 //! Everything except `alloc_engine` needs the crate's default (`std`) feature set.
 pub mod alloc_engine;
